@@ -3,7 +3,7 @@ import core
 import prims
 import moveout
 import blobs
-from core import op_local, op_place
+from core import op_local, op_place, op_const
 from engine import Rule
 
 EXPLANATION = (
@@ -18,6 +18,7 @@ EXPLANATION = (
     "unchanged across every interleaving.")
 EXPLANATION += (" " + 'T7 an assignment into the active slot is dominated (body or every caller) by an emptiness test of that slot / a take(), or happens under &mut Storage; T8 after take/replace/pop of a blob every non-error exit passes a hand-back (None edges carry nothing; close(self) exempt); T9 the (headers, count) results of get_records_headers take the count from header.records_count.')
 EXPLANATION += (" " + 'T10 no `<[u8] as Ord>` comparison in the index code (keys are compared through K / K::Ref); T11 = C02.U6.')
+EXPLANATION += (" " + "T12 is a small abstract interpretation: the domain is 'multiple of record_header_size relative to an aligned base'; the cursor, the unit, products with the unit as a factor, sums and differences of aligned values, zero and parameters are aligned, everything else (a block size, a buffer length, a min()) is not. Every value assigned to the leaf cursor of go_right / go_right_file / go_left and the position handed to the file walk must be aligned.")
 ASSUMPTIONS = ["State::InMemory / State::OnDisk are the only index states (read from the ADT table)"]
 
 OPEN_NEW = 'blob::core::Blob::<K>::open_new'
@@ -574,6 +575,120 @@ def t11(ctx, rid):
     c02.u6(ctx, rid)
 
 
+def _aligned(f, operand, cursor, unit_fields, seen=None, depth=12):
+    """abstract value of a scalar expression in the domain {multiple of the record-header size relative to an aligned base}:
+    True when every definition is the cursor itself, the unit, a product with the unit as a factor, a sum / difference of
+    aligned values, zero, or a parameter (callers hand in aligned bases)"""
+    if seen is None:
+        seen = set()
+    k = op_const(operand) if isinstance(operand, dict) else None
+    if k is not None:
+        return isinstance(k, dict) and k.get('int') in (0, '0')
+    p = op_place(operand) if isinstance(operand, dict) else [operand, []]
+    if p is None:
+        return False
+    names = [n for n in core.place_fields(p) if not n.isdigit()]
+    if names:
+        return names[-1] in unit_fields
+    l = p[0]
+    if l in cursor:
+        return True
+    if l in seen or depth <= 0:
+        return True     # inductive: a cycle through the cursor
+    seen = seen | {l}
+    ds = [x for x in f.defs().get(l, []) if x[2] in ('assign', 'call', 'arg', 'partial')]
+    if not ds:
+        return False
+    for (bb, si, kind, payload) in ds:
+        if kind == 'arg':
+            continue
+        if kind == 'call':
+            return False
+        r = payload if kind == 'assign' else payload['r']
+        kk = r['k']
+        if kk == 'use' or kk == 'cast':
+            if not _aligned(f, r['o'], cursor, unit_fields, seen, depth - 1):
+                return False
+        elif kk == 'bin':
+            op = r['op']
+            a = _aligned(f, r['a'], cursor, unit_fields, seen, depth - 1)
+            b = _aligned(f, r['b'], cursor, unit_fields, seen, depth - 1)
+            if op.startswith('Mul'):
+                if not (a or b):
+                    return False
+            elif op.startswith('Add') or op.startswith('Sub'):
+                if not (a and b):
+                    return False
+            else:
+                return False
+        elif kk == 'agg' and r.get('ak') == 'tuple':
+            if not all(_aligned(f, o, cursor, unit_fields, seen, depth - 1) for o in r['ops']):
+                return False
+        else:
+            return False
+    return True
+
+
+def t12(ctx, rid):
+    """cursors over the leaf region of the on-disk index move by whole record headers: every value assigned to the `offset`
+    cursor of go_right / go_right_file / go_left, and the position handed from the in-buffer walk to the file walk, is the cursor
+    plus / minus multiples of record_header_size (alignment domain; products with the unit as a factor are aligned, a block size
+    or a buffer length is not).  A cursor that leaves the header grid decodes garbage: version lists of long histories fail or
+    lose entries once the index is on disk, while the in-memory index answers correctly."""
+    prog = ctx.prog
+    n = 0
+    unit = ('record_header_size',)
+    for f in prog.fns.values():
+        root = prog.fns[f.id].root
+        if not (root.endswith('BPTreeFileIndex::<K>::go_right') or root.endswith('BPTreeFileIndex::<K>::go_right_file') or root.endswith('BPTreeFileIndex::<K>::go_left')) or not f.is_coroutine:
+            continue
+        cursor = {i for i in range(len(f.locals)) if f.debug_name(i) == 'offset'}
+        if not cursor:
+            raise core.AnchorLost('cursor `offset` in %s' % root)
+        # locals copied from the unit field count as the unit
+        for i, b in enumerate(f.blocks):
+            if b['c'] or i not in f.reachable():
+                continue
+            for st in b['s']:
+                if st['k'] != 'a' or st['d'][0] not in cursor or st['d'][1]:
+                    continue
+                r = st['r']
+                if r['k'] == 'use' and op_place(r['o']) is not None and op_place(r['o'])[0] == 1:
+                    continue    # initial value moved out of the coroutine's captured arguments
+                n += 1
+                key = 'cursor-stays-on-grid|%s' % root
+                if r['k'] in ('use', 'cast'):
+                    ok = _aligned(f, r['o'], cursor, unit)
+                elif r['k'] == 'bin':
+                    ok = _aligned_rvalue(f, r, cursor, unit)
+                else:
+                    ok = False
+                if ok:
+                    ctx.ok(rid, key, f.where(i), 'cursor +/- multiples of record_header_size')
+                else:
+                    ctx.bad(rid, key, f.where(i), 'the leaf cursor `offset` is advanced by something that is not a multiple of record_header_size (a block size, a buffer length, a byte count): the next header is decoded from the middle of a record - long version lists fail or lose entries once the index is on disk')
+        for c in f.calls:
+            if c.bb in f.reachable() and c.name == 'go_right_file' and len(c.args) >= 3:
+                n += 1
+                key = 'handoff-on-grid|%s' % root
+                if _aligned(f, c.args[2], cursor, unit):
+                    ctx.ok(rid, key, c.where(), 'the file walk continues at base + cursor')
+                else:
+                    ctx.bad(rid, key, c.where(), 'the position handed from the in-buffer walk to the file walk is not base + cursor (it depends on a bound / buffer length that is not a multiple of record_header_size)')
+    if n < 4:
+        raise core.AnchorLost('leaf cursor updates: %d' % n)
+
+
+def _aligned_rvalue(f, r, cursor, unit):
+    a = _aligned(f, r['a'], cursor, unit)
+    b = _aligned(f, r['b'], cursor, unit)
+    if r['op'].startswith('Mul'):
+        return a or b
+    if r['op'].startswith('Add') or r['op'].startswith('Sub'):
+        return a and b
+    return False
+
+
 RULES = [
     Rule('C04.T1', 'every value stored into the active-blob slot is certified to have an in-memory index (open_new, load_index ok, or popped after load_index ok on the last element)', t1, 7),
     Rule('C04.T2', 'every index push is dominated by an InMemory-establishing event, in the body or in every caller, or acts on the active-blob slot', t2, 3),
@@ -585,5 +700,6 @@ RULES = [
     Rule('C04.T9', 'the loaders return the record count stored in the index header, not a property of the rebuilt key map', t9, 2),
     Rule('C04.T10', 'keys are ordered through the key type, never as raw byte strings, in the index code', t10, 4),
     Rule('C04.T11', 'the point lookup consults every candidate closed blob before it returns Ok (C02.U6 instances)', t11, 1),
+    Rule('C04.T12', 'cursors over the on-disk leaf region move by whole record headers (alignment domain)', t12, 4),
     Rule('C04.T6', 'the closed-blob vector (child ids are positions) is never shrunk', t6, 4),
 ]
